@@ -185,7 +185,14 @@ def main():
         nbad = len(det) if isinstance(det, list) else n_thm
         thm_ok = max(0, n_thm - nbad)
     n_b = len(ctx.batches)
-    b_ok = sum(1 for b in ctx.batches.values() if b["failed"] == 0)
+    # a batch is discharged when every failure in it is a listed known finding (reported as KNOWN-FINDING above)
+    unmatched = {}
+    for f in prop_fail + corr_fail:
+        unmatched[f["batch"]] = unmatched.get(f["batch"], 0) + 1
+    for name, b in ctx.batches.items():
+        b["failed_unlisted"] = unmatched.get(name, 0)
+        b["failed_known_findings"] = max(0, b["failed"] - b["failed_unlisted"])
+    b_ok = sum(1 for name in ctx.batches if unmatched.get(name, 0) == 0)
     level = getattr(mod, "LEVEL", "proof")
     cov = {
         "obligations": n_thm + n_b,
